@@ -108,7 +108,17 @@ def run_case(case):
         obs["evaluations"] = total
         obs["sample"] = {"library_run_sites": total, "procedures": len(lib), "examples": sorted(allseen)[:5]}
         return obs
-    if case["kind"] == "text":
+    if case["kind"] == "peg":
+        # a sentence derived from the grammar object of the tree under observation: spellings nobody chose
+        # (PALETTECMP, ?@5, blank-less keywords ...) must reach the same procedures with the same arguments
+        from coco.b09 import compiler
+        from ..gen import peggen
+
+        g = getattr(compiler.grammar, "_real", compiler.grammar)
+        rng = random.Random(case["seed"])
+        text = peggen.PegSampler(g, rng, max_depth=rng.choice([12, 16, 20])).gen()
+        prog = None
+    elif case["kind"] == "text":
         text = case["text"]
         prog = None
     else:
@@ -136,6 +146,11 @@ def run_case(case):
     obs["nontrivial"] = n > 0
     obs["sets"]["callees"] = sorted(s.split("(")[0] for s in seen)
     for sig, d in viols:
+        if case["kind"] == "peg" and sig.endswith("-got-boolean"):
+            # a comparison used as a number in the SOURCE (grammar-derived sentences do that freely): the tool explicitly
+            # does not promise type correctness of mixed boolean / numeric expressions
+            obs["counters"]["boolean_operand_sources"] = obs["counters"].get("boolean_operand_sources", 0) + 1
+            continue
         d = dict(d, source=text[:600], emitted_line=conv["out"].split("\n")[d["line"] - 1] if d.get("line") else None)
         obs["viols"].append({"sig": sig, "detail": d})
     if case.get("sample"):
@@ -176,6 +191,8 @@ def cases(tier, seed):
         for v in STR_VARIANTS:
             yield {"kind": "text", "text": "10 " + t % tuple([v] * k), "opts": {}}
     yield {"kind": "text", "text": "10 INPUT A,B$:LINE INPUT C$:READ A,B$\n20 DATA 1,,X", "opts": {}}
+    for i in range(1500 if tier == "quick" else 150000):
+        yield {"kind": "peg", "seed": seed * 500009 + i, "opts": [{}, {"initialize_vars": True}][i % 2]}
     m = 300 if tier == "quick" else 40000
     for i in range(m):
         yield {"kind": "gen", "seed": seed * 1009 + i, "opts": [{}, {"initialize_vars": True}][i % 2],
